@@ -11,8 +11,10 @@ from . import _reg
 ID = "C02"
 P = "Webauthn.Props.C02."
 THEOREMS = [P + "sound", P + "reject_any_deviation", "Webauthn.verifyReg_ok_iff", "Webauthn.parseAttObj_ok",
-            "Webauthn.verifyFormat_ok", "Webauthn.Props.C10.layout"]
-LEAN_TARGETS = ["Props.C02"]
+            "Webauthn.verifyFormat_ok", "Webauthn.Props.C10.layout"] + \
+           ["Webauthn.Props.Examples.reg_accepts"]
+AUDIT_IMPORTS = ["Props.Examples"]
+LEAN_TARGETS = ["Props.Examples", "Props.C02"]
 SPEC_FILES = ["Spec/Core.lean", "Proofs/VerifyReg.lean"]
 ASSUMPTIONS = ["external libraries are oracles; theorems hold for every oracle behaviour",
                "tie direction: whenever the real code accepts, the model accepts with an equal record"]
